@@ -233,6 +233,14 @@ def execute(cases_, tier, seed):
             for kk, where in ((k, "member"),):
                 op = ans[kk]["ops"][0]
                 res.transitions += 1
+                if inside and -2 ** 63 <= d <= 2 ** 63 - 1 and op["status"] != "ok":
+                    # a default inside the admitted range (and inside i64, hence inside whatever type is chosen for that range) must be accepted
+                    feat = dict(c["features"])
+                    feat["where"] = where
+                    feat["default"] = str(d)
+                    res.violations.append(Violation(k, "good-default-rejected:" + where,
+                                                    "default %r inside the admitted range of %r: %s %s" % (d, c["schema"], op["status"], op.get("msg")), c,
+                                                    expected="ok", observed=op, features=feat))
                 if not inside and op["status"] != "err":
                     # a definition-level default of a plain alias is not "honoured" anywhere unless a Default impl exists;
                     # the statement says the numeric default outside the range "is reported as an error"
